@@ -546,7 +546,7 @@ pub struct C23 {
 
 fn world_knobs(tier: Tier) -> WorldKnobs {
     WorldKnobs {
-        n_schemas: if tier == Tier::Quick { 22 } else { 120 },
+        n_schemas: if tier == Tier::Quick { 20 } else { 120 },
         n_datasets: 2,
         n_queries: 10,
         query: QueryKnobs::clean(),
@@ -607,6 +607,53 @@ impl C23 {
                     out.push(Planned {
                         variant: v,
                         link: Some(("add-filter".into(), "add-filter-adds-rows".into(), "sub".into(), BASE, None, vec![])),
+                        data: None,
+                    });
+                }
+            }
+        }
+
+        // --- add a filter whose operand is a tag defined at the same or an enclosing vertex --------
+        {
+            // (node path, field index, tag name, type of the tagged property)
+            let mut tags: Vec<(Vec<usize>, usize, String, Ty)> = vec![];
+            for (s, j, _, pty) in &props {
+                if let Field::Prop { dirs, .. } = &node_at(q0, &s.path).fields[*j] {
+                    for d in dirs {
+                        if let Dir::Tag(t) = d {
+                            tags.push((s.path.clone(), *j, t.clone(), pty.clone()));
+                        }
+                    }
+                }
+            }
+            let mut cands = vec![];
+            for (pi, (s, j, _, pty)) in props.iter().enumerate() {
+                if s.under_fold {
+                    continue;
+                }
+                for (ti, (tpath, tj, _, tty)) in tags.iter().enumerate() {
+                    let visible = s.path.starts_with(tpath) && !(tpath.len() == s.path.len() && tj == j);
+                    if visible && tty.eqn(pty) {
+                        cands.push((pi, ti));
+                    }
+                }
+            }
+            if let Some(i) = pick(rng, cands.len()) {
+                c.bump("add-filter-tag", 0);
+                let (pi, ti) = cands[i];
+                let (s, j, _, pty) = &props[pi];
+                let mut ops = vec![Op::Eq, Op::Neq];
+                if !pty.is_list() && matches!(pty.base.as_str(), "Int" | "Float" | "String") {
+                    ops.extend([Op::Lt, Op::Le, Op::Gt, Op::Ge]);
+                }
+                let op = *rng.pick(&ops);
+                let mut q = q0.clone();
+                let k = rng.below(8);
+                add_filter(&mut q, &s.path, *j, k, op, Arg::Tag(tags[ti].2.clone()));
+                if let Some(v) = compile_variant(w, q, args0.clone(), "add-filter-tag", &mut c) {
+                    out.push(Planned {
+                        variant: v,
+                        link: Some(("add-filter-tag".into(), "add-filter-adds-rows".into(), "sub".into(), BASE, None, vec![])),
                         data: None,
                     });
                 }
@@ -1065,7 +1112,7 @@ impl Prop for C23 {
         "C23"
     }
     fn rule(&self) -> &'static str {
-        "per seed: generated worlds as for C01 (schemas x 2 datasets x ~10 type-directed queries accepted by the real frontend and argument validation; generator setting QueryKnobs::clean(), i.e. without the triggers of the known defects F-4/F-5/F-9/F-10). For every accepted query one randomly chosen applicable site per transformation: add-filter (a type-correct filter with a fresh variable drawn mostly from the property's values in the dataset, any operator, on a property outside folds: rows' <+ rows), partition (outside folds and optional scopes, an operator with complement: rows(q) is a merge of rows(q+f) and rows(q+not f)), eq-oneof (`= $x` against `one_of [$x]` on any property, folds included, half of the operands in the other integer representation: equal rows), recurse-raise / recurse-lower (depth d -> d+1|d+2, d-1 outside folds: sublist), make-optional (a plain edge outside folds; skipped when a fold-count filter is below it: F-9); (query, dataset) pairs whose original result exceeds 1500 rows are not transformed (150 rows for recurse-raise), counted under skipped_known_defect of `(all)` / `recurse-raise`, rename-outputs / rename-tags (a permutation of the existing names or fresh names in reverse order), reorder-props (swap of two adjacent selections at least one of which is a property, anywhere: identical row sequence), reorder-edges (swap of two adjacent edges outside folds: equal multisets), param-edge (an edge with a declared parameter, plain or folded, rewritten to another parameter value plus `id @filter(<)` in a dataset whose adjacency for the original parameter tuple is the filtered adjacency of the new one: equal rows). Transformed queries rejected by the frontend (e.g. a tag used before its definition after a swap) are counted and skipped. Every original and transformed query is sent per dataset as (spec-exec ...) [model = Lean Spec] (queries with a fold-count filter >=/> on a variable additionally as (exec ...) [model = Interp over the real IR], so that a Spec mismatch can be classified as the known fold-limit truncation F-23/F-29); the relation is checked on the engine's rows. A case is non-trivial (nt:<kind>) when the left query returned at least one row on that dataset; nt:<kind>:strict when the transformation changed the row sequence."
+        "per seed: generated worlds as for C01 (schemas x 2 datasets x ~10 type-directed queries accepted by the real frontend and argument validation; generator setting QueryKnobs::clean(), i.e. without the triggers of the known defects F-4/F-5/F-9/F-10). For every accepted query one randomly chosen applicable site per transformation: add-filter (a type-correct filter with a fresh variable drawn mostly from the property's values in the dataset, any operator, on a property outside folds: rows' <+ rows), add-filter-tag (=, !=, <, <=, >, >= against a type-compatible tag defined at the same or an enclosing vertex: rows' <+ rows), partition (outside folds and optional scopes, an operator with complement: rows(q) is a merge of rows(q+f) and rows(q+not f)), eq-oneof (`= $x` against `one_of [$x]` on any property, folds included, half of the operands in the other integer representation: equal rows), recurse-raise / recurse-lower (depth d -> d+1|d+2, d-1 outside folds: sublist), make-optional (a plain edge outside folds; skipped when a fold-count filter is below it: F-9); (query, dataset) pairs whose original result exceeds 1500 rows are not transformed (150 rows for recurse-raise), counted under skipped_known_defect of `(all)` / `recurse-raise`, rename-outputs / rename-tags (a permutation of the existing names or fresh names in reverse order), reorder-props (swap of two adjacent selections at least one of which is a property, anywhere: identical row sequence), reorder-edges (swap of two adjacent edges outside folds: equal multisets), param-edge (an edge with a declared parameter, plain or folded, rewritten to another parameter value plus `id @filter(<)` in a dataset whose adjacency for the original parameter tuple is the filtered adjacency of the new one: equal rows). Transformed queries rejected by the frontend (e.g. a tag used before its definition after a swap) are counted and skipped. Every original and transformed query is sent per dataset as (spec-exec ...) [model = Lean Spec] (queries with a fold-count filter >=/> on a variable additionally as (exec ...) [model = Interp over the real IR], so that a Spec mismatch can be classified as the known fold-limit truncation F-23/F-29); the relation is checked on the engine's rows. A case is non-trivial (nt:<kind>) when the left query returned at least one row on that dataset; nt:<kind>:strict when the transformation changed the row sequence."
     }
     fn generate(&self, tier: Tier, rng: &mut Rng) -> Vec<Case> {
         let (worlds, stats) = generate_worlds(rng, &world_knobs(tier));
